@@ -222,6 +222,12 @@ func (f File) Validate() error {
 			allOpCodes[un.OpCode] = un.Name
 		}
 	}
+	for _, c := range f.Consts {
+		// consts and types are declared in the same Go package scope
+		if _, ok := customTypes[c.Name]; ok {
+			return fmt.Errorf("const %s shares its name with a type", c.Name)
+		}
+	}
 	allTypes := customTypes
 	for typ := range primitiveTypes {
 		allTypes[typ] = struct{}{}
